@@ -29,12 +29,42 @@ def _inst_cases(C, tier, seed):
     return out
 
 
+def _all_cases(C, tier, seed):
+    """instantiation units + C10(c): every other registered harness is run (bounded number of cases) purely for its
+    sanitizer / abort / hang outcomes — those are C10's subject matter whatever property generated the input."""
+    import glob, importlib
+    out = _inst_cases(C, tier, seed)
+    lib, _ = C.build_lib()
+    if lib is None:
+        return out
+    limit = 150 if tier == 'thorough' else 25
+    here = os.path.dirname(os.path.abspath(__file__))
+    for f in sorted(glob.glob(os.path.join(here, 'c[0-9][0-9].py'))):
+        sp = importlib.import_module('props.' + os.path.splitext(os.path.basename(f))[0]).SPEC
+        if sp['id'] == 'C10' or not sp.get('harness') or not sp.get('needs_lib', True):
+            continue
+        exe, _ = C.build_harness(sp['harness'], lib, extra_flags=sp.get('harness_flags', ()))
+        if exe is None:
+            continue          # reported by that property's own check
+        lines, crashes, done = C.run_harness(exe, seed, 'quick', 240 if tier == 'thorough' else 90, case_timeout=sp.get('case_timeout', 60), limit=limit)
+        known = C.load_known()
+        for cr in crashes:
+            comp, kind = sp['id'], cr['kind']
+            if sp.get('classify_crash'):
+                comp, kind = sp['classify_crash'](cr)
+            if C.known_match(known, sp['id'], comp, kind):
+                continue      # recorded under its own property with that call site
+            out.append(('crash:%s:%s' % (sp['id'], cr['case']), 'C10 crash %s-harness:%s %s | %s' % (sp['id'], comp.replace(' ', '_'), cr['case'], kind)))
+        out.append(('ran:' + sp['id'], 'C10 range %s-harness-completed | 1' % sp['id']))
+    return out
+
+
 SPEC = {
     'id': 'C10',
     'lean_modules': ['AITB.Props.C10'],
     'theorems': ['AITB.Cursor.matchLoop_total', 'AITB.Cursor.match_no_oob', 'AITB.Cursor.matchOrig_oob_witness'],
     'harness': 'harness/c10.cpp',
-    'extra_cases': _inst_cases,
+    'extra_cases': _all_cases,
     'level': 'exploration',
     'level_text': 'C++ template instantiation and memory safety are decided by the compiler and by ASan/UBSan on generated cases (exploration); '
                   'Lean proofs cover the cursor models of the manual index cores (match; Trie/prune/trace cores live with C20/C12/C11) — partial by nature, see DESIGN §8 C10',
